@@ -28,10 +28,11 @@ from .events import (
 from .exceptions import (
     ProtocolError, NoSuchStreamError, FlowControlError, FrameTooLargeError,
     TooManyStreamsError, StreamClosedError, StreamIDTooLowError,
-    NoAvailableStreamIDError, RFC1122Error, DenialOfServiceError
+    NoAvailableStreamIDError, RFC1122Error, DenialOfServiceError,
+    InvalidSettingsValueError
 )
 from .frame_buffer import FrameBuffer
-from .settings import Settings, SettingCodes
+from .settings import Settings, SettingCodes, _validate_setting
 from .stream import H2Stream, StreamClosedBy
 from .utilities import SizeLimitDict, guard_increment_window
 from .windows import WindowManager
@@ -1095,6 +1096,17 @@ class H2Connection:
             "Update connection settings to %s", new_settings
         )
         self.state_machine.process_input(ConnectionInputs.SEND_SETTINGS)
+
+        # Check all the values before we store any of them: if one is refused
+        # no frame is sent, so none of the others may stay pending either.
+        for setting, value in new_settings.items():
+            invalid = _validate_setting(setting, value)
+            if invalid:
+                raise InvalidSettingsValueError(
+                    "Setting %d has invalid value %d" % (setting, value),
+                    error_code=invalid
+                )
+
         self.local_settings.update(new_settings)
         s = SettingsFrame(0)
         s.settings = new_settings
